@@ -194,6 +194,56 @@ func lazy(callers int) Scenario {
 	}}
 }
 
+// lazyPanic: the function panics; every caller has to observe that (a caller that silently gets a
+// value did not get "that result").
+func lazyPanic(callers int) Scenario {
+	return Scenario{fmt.Sprintf("lazy/panicking-f/callers=%d", callers), func() {
+		runs := 0
+		l := xsync.Lazy(func() int {
+			hx.Atomically(func() { runs++ })
+			hx.Yield()
+			panic("lazy function failed")
+		})
+		var wg sync.WaitGroup
+		panicked := make([]bool, callers)
+		for i := 0; i < callers; i++ {
+			i := i
+			wg.Add(1)
+			go func() {
+				defer wg.Done()
+				defer func() {
+					if recover() != nil {
+						panicked[i] = true
+					}
+				}()
+				l()
+			}()
+		}
+		wg.Wait()
+		later := false
+		func() {
+			defer func() {
+				if recover() != nil {
+					later = true
+				}
+			}()
+			l()
+		}()
+		for i, p := range panicked {
+			if !p {
+				hx.Fail("lazy-panic-not-propagated", "the function panicked, but caller %d silently received a value", i)
+			}
+		}
+		if !later {
+			hx.Fail("lazy-panic-not-propagated", "the function panicked, but a later caller silently received a value")
+		}
+		if runs != 1 {
+			hx.Fail("lazy-ran-more-than-once", "the (panicking) function ran %d times", runs)
+		}
+		hx.Outcome("ok")
+	}}
+}
+
 func All() []Scenario {
 	return []Scenario{
 		watchable(nil, 1),
@@ -204,6 +254,6 @@ func All() []Scenario {
 		watchable([][]int{{1, 2}, {3}}, 1),
 		watchable([][]int{{1, 2}}, 2),
 		future(1, 0), future(2, 0), future(1, 1), future(0, 2),
-		lazy(2), lazy(3),
+		lazy(2), lazy(3), lazyPanic(2),
 	}
 }
